@@ -74,7 +74,7 @@ def edit_checks(chk):
         if (dxy == 0) != (x == y):
             fails.append((list(x), list(y), 'identity of indiscernibles fails'))
     drv.close()
-    chk.tested_not_proved.append('edit distance: triangle inequality and symmetry are tested (exhaustive over short words, %d triples), not proved' % tri)
+    chk.tested_not_proved.append('edit distance: symmetry, d = 0 iff equal and the triangle inequality are theorems about the model (C03_edit_symm, C03_edit_zero_iff, C03_edit_triangle); on the real code they are additionally tested exhaustively over short words (%d triples)' % tri)
     chk.obligation('correspondence:edit_dist (model editDist == malign.edit_dist; == textbook lev)', 'correspondence',
                    not bad and not fails, 'cases=%d mismatches=%d oracle-failures=%d' % (len(cases), len(bad), len(fails)))
     for f in fails[:2]:
